@@ -655,6 +655,7 @@ fn request_path(prog: &Sexp, idx: usize) -> String {
 // resources: (16 kind flags mode g p1 p2 p3 child)
 //   kind  0 Resource  1 OnceResource  2 ArcResource  3 ArcOnceResource  4 AsyncDerived
 //         5 ArcAsyncDerived  6 ArcResource converted into a Resource by the reader
+//         7 LocalResource  8 ArcLocalResource (read under a <Suspense> the op brings along)
 //   flags bit 0: blocking constructor, bit 1: FromToStringCodec (`new_str*`)
 //   mode  how the reader gets at the value: 0 `.await`  1 `.get()` in a reactive closure under a
 //         <Suspense>  2 `.by_ref().await`  3 `.ready().await` + untracked read  4 `.map()` under a
@@ -787,6 +788,53 @@ fn build_resource(p: &Sexp, env: &Env) -> AnyView {
         (3, false, true) => reader(ArcOnceResource::new_blocking(fetch()), mode, env, p3, child),
         (3, true, false) => reader(ArcOnceResource::new_str(fetch()), mode, env, p3, child),
         (3, true, true) => reader(ArcOnceResource::new_str_blocking(fetch()), mode, env, p3, child),
+        (7, _, _) | (8, _, _) => {
+            // LocalResource / ArcLocalResource: never loads on the server (ArcAsyncDerived::new_mock);
+            // a read under a boundary tells the boundary through the LocalResourceNotifier it finds
+            // in context, the boundary renders its fallback and records an incomplete chunk
+            // (the reading view is built by the boundary's children closure, i.e. under the boundary)
+            let env = env.clone();
+            let envc = env.clone();
+            let sync_read = mode == 1 || mode == 4;
+            let boundary = if kind == 7 {
+                let res = LocalResource::new(move || fetch());
+                let mk = move || {
+                    if sync_read {
+                        (move || {
+                            let v = res.get();
+                            format!("{}{}", v.unwrap_or_else(|| "local".into()), probe(&envc, p3, K_DYNL, None))
+                        })
+                        .into_any()
+                    } else {
+                        Suspend::new(async move {
+                            let v = res.await;
+                            (v, probe(&envc, p3, K_ASYNC, None))
+                        })
+                        .into_any()
+                    }
+                };
+                view! { <Suspense fallback=|| "fbL">{mk()}</Suspense> }.into_any()
+            } else {
+                let res = leptos_server::ArcLocalResource::new(move || fetch());
+                let mk = move || {
+                    if sync_read {
+                        (move || {
+                            let v = res.get();
+                            format!("{}{}", v.unwrap_or_else(|| "local".into()), probe(&envc, p3, K_DYNL, None))
+                        })
+                        .into_any()
+                    } else {
+                        Suspend::new(async move {
+                            let v = res.await;
+                            (v, probe(&envc, p3, K_ASYNC, None))
+                        })
+                        .into_any()
+                    }
+                };
+                view! { <Suspense fallback=|| "fbL">{mk()}</Suspense> }.into_any()
+            };
+            (boundary, build(child, &env)).into_any()
+        }
         (4, _, _) => reader(AsyncDerived::new(move || fetch()), mode, env, p3, child),
         (5, _, _) => reader(ArcAsyncDerived::new(move || fetch()), mode, env, p3, child),
         (_, _, true) => {
